@@ -80,7 +80,9 @@ Fixpoint has_dotdot (l : bytes) : bool :=
               | [] => false
               end
   end.
-Definition starts_dot (l : bytes) : bool := match l with c :: _ => c =? 46 | [] => false end.
+Definition starts_ch (ch : N) (l : bytes) : bool := match l with c :: _ => c =? ch | [] => false end.
+Definition starts_dot (l : bytes) : bool := starts_ch 46 l.
+Definition is_nil (l : bytes) : bool := match l with [] => true | _ => false end.
 
 Definition colon : N := 58.
 Definition slash : N := 47.
@@ -238,27 +240,24 @@ Fixpoint port_digits (l : bytes) (acc : N) : option N :=
 
 (* host text and optional port text, from foundHost after the login has been removed *)
 Definition split_host_port (fh : bytes) : bytes * option bytes :=
-  match fh with
-  | 91 :: t =>                                               (* '[' : strip IPA brackets *)
-      let '(inner, after) := span (fun c => negb (c =? 93)) t in
-      (inner, match after with
-              | [] => None
-              | _ :: _ => match split_first colon after with Some (_, p) => Some p | None => None end
-              end)
-  | _ =>
-      match split_last colon fh with
-      | Some (a, b) => if existsb (N.eqb colon) a then (fh, None)   (* strrchr != strchr: unbracketed IPv6 *)
-                       else (a, Some b)
-      | None => (fh, None)
-      end
-  end.
+  if starts_ch 91 fh then                                     (* '[' : strip IPA brackets *)
+    let '(inner, after) := span (fun c => negb (c =? 93)) (tl fh) in
+    (inner, match after with
+            | [] => None
+            | _ :: _ => match split_first colon after with Some (_, p) => Some p | None => None end
+            end)
+  else
+    match split_last colon fh with
+    | Some (a, b) => if existsb (N.eqb colon) a then (fh, None)   (* strrchr != strchr: unbracketed IPv6 *)
+                     else (a, Some b)
+    | None => (fh, None)
+    end.
 
 (* everything after the login has been cut off foundHost *)
 Definition after_login (c : cfg) (ipq : bytes -> ipres) (sch : scheme) (login fh1 urlpath : bytes) : option uri :=
   let '(h, ptxt) := split_host_port fh1 in
   (* Bug 3183 check: made after the bracket strip, before the port is cut off *)
-  if (match fh1 with 91 :: _ => match h with [] => true | _ => false end
-                   | [] => true | _ => false end) then None else
+  if (if starts_ch 91 fh1 then is_nil h else is_nil fh1) then None else
   match (match ptxt with
          | Some p => port_digits p 0
          | None => Some (match default_port sch with Some d => d | None => 0 end)
@@ -269,7 +268,7 @@ Definition after_login (c : cfg) (ipq : bytes -> ipres) (sch : scheme) (login fh
 
 (* urlpath: an implied "/" unless the text after the authority starts with one; up to CR / LF *)
 Definition urlpath_of (src : bytes) : bytes :=
-  (match src with 47 :: _ => [] | _ => [slash] end) ++ fst (span (fun c => negb (is_crlf c)) src).
+  (if starts_ch slash src then [] else [slash]) ++ fst (span (fun c => negb (is_crlf c)) src).
 
 Definition parse_url (c : cfg) (ipq : bytes -> ipres) (sch : scheme) (rest : bytes) : option uri :=
   match tok_skip [slash; slash] rest with
@@ -352,7 +351,7 @@ Definition absolute (u : uri) : bytes :=
   s_img (u_scheme u) ++ colon ::
   (if negb (id =? uri_PROTO_URN) then
      [slash; slash] ++
-     (if ((id =? uri_PROTO_FTP) || (id =? uri_PROTO_UNKNOWN)) && negb (match u_login u with [] => true | _ => false end)
+     (if ((id =? uri_PROTO_FTP) || (id =? uri_PROTO_UNKNOWN)) && negb (is_nil (u_login u))
       then uri_encode_userinfo (u_login u) ++ [64] else [])
      ++ authority u false
    else u_host u ++ [colon])
